@@ -782,7 +782,7 @@ def check(run):
                 ndel += 1
             if D.encodable(cur):
                 mlines.append("CHK %d 40 ST %s" % (lag, D.encode_state(cur)))
-                mexpect.append(("chk", "1" if D.consistent_py(tabs, cur) else "0", cur, part, None, None))
+                mexpect.append(("chk", "%d %d" % (1 if D.consistent_py(tabs, cur) else 0, 0 if any(c == "I2" for c, _ in D.monitor(tabs, cur)) else 1), cur, part, None, None))
                 lk = D.monitor_links(cur)
                 mlines.append("MOP %d %d check %s" % (lag, FUEL, D.encode_mstate(cur, NATOMS)))
                 mexpect.append(("chk", "%d %d" % (0 if any(c != "A1" for c, _ in lk) else 1, 0 if any(c == "A1" for c, _ in lk) else 1), cur, part, None, None))
